@@ -177,6 +177,9 @@ def body_kill(rec, c):
     for k in range(1, len(res)):
         prev, cur = res[k - 1], res[k]
         if cur.get("config_none"):
+            pc = prev.get("cstep_end") if prev.get("cstep_end") is not None else prev.get("cstep_start")
+            if pc is not None and c["segments"][k]["steps"] > pc:
+                rec.check(False, "C06:kill:restart-refused-with-steps-left", f"restart {k}: setup_config returned None at step {pc} of {c['segments'][k]['steps']}; case={c}")
             continue
         # jobs in flight as of the last completed step of the previous lifetime (what the stop recorded)
         expected = prev["carry"].get("inflight_at_last_step", []) if prev.get("killed") else []
